@@ -101,6 +101,13 @@ Definition seq_getitem (gap : option str) (s : bioseq) (ix : index) : res bioseq
       end
   end.
 
+(* the same subscript on a plain residue string: columns selected by the adjusted index (no constructor) *)
+Definition str_getitem (gap : option str) (d : str) (ix : index) : res str :=
+  match adjust_index gap d ix with
+  | Err e => Err e
+  | Ok ix' => pyget d ix'
+  end.
+
 (* ---- the .str namespace, parametrically in the wrapped str method (seq.py:36-191) ---- *)
 Section StrNamespace.
   Variables Arg R : Type.
@@ -337,8 +344,8 @@ Definition trans_ok (m : list (byte * byte)) : bool :=
   forallb (fun p => is_ascii (fst p) && is_ascii (snd p) && negb (is_lower (snd p))) m.
 Definition okstr (s : str) : bool := all_ascii s && no_lower s.
 Definition opt_okstr (g : option str) : bool := match g with None => true | Some g => all_ascii g end.
-Definition gap_ix_ok (gap : option str) (ix : index) : bool :=
-  match gap, ix with Some _, ISlice s => contiguous s | _, _ => true end.
+(* round 7: gap-aware subscripts with any step are inside the correspondence (modelled as they are) *)
+Definition gap_ix_ok (gap : option str) (ix : index) : bool := true.
 (* steps inside the claim: ASCII, no lower case written behind the constructor's back, contiguous gap slices *)
 Definition hstep_wf (h : hstep) : bool :=
   match h with
@@ -495,6 +502,102 @@ Definition py_center (s : str) (w : Z) (f : option byte) : str :=
   if m <=? 0 then s else
   let left := m / 2 + (if Z.odd m && Z.odd w then 1 else 0) in pad left (m - left) (fill_of f) s.
 
+
+(* ---- round 7: the remaining methods of the namespace as list functions on ASCII ---- *)
+(* removeprefix / removesuffix (unicode_removeprefix_impl: tailmatch over the whole string) *)
+Definition py_removeprefix (s p : str) : str := if prefixb p s then skipn (length p) s else s.
+Definition py_removesuffix (s p : str) : str :=
+  if prefixb (rev p) (rev s) then firstn (length s - length p) s else s.
+(* isalpha: non-empty and letters only; isascii: every code point below 128 (true for the empty string) *)
+Definition is_alpha (c : byte) : bool := is_upper c || is_lower c.
+Definition py_isalpha (s : str) : bool := negb (Nat.eqb (length s) 0) && forallb is_alpha s.
+Definition py_isascii (s : str) : bool := forallb is_ascii s.
+(* encode with utf-8 / ascii / latin-1 (strict): on ASCII code points the bytes are the code points *)
+Definition py_encode (s : str) : str := s.
+
+(* the current piece is the head of the result *)
+Definition cons_head (c : byte) (l : list str) : list str :=
+  match l with h :: t => (c :: h) :: t | [] => [[c]] end.
+Definition is_ws (c : byte) : bool := existsb (byte_eqb c) ws.
+(* split() / split(None, maxsplit), stringlib split_whitespace: runs of white space separate, none at the ends;
+   when maxsplit pieces have been started the rest (after leading white space) is the last piece as it is *)
+Fixpoint split_ws_go (w : str) (inword : bool) (lim : option nat) : list str :=
+  match w with
+  | [] => if inword then [[]] else []
+  | c :: r =>
+      if inword then (if is_ws c then [] :: split_ws_go r false lim else cons_head c (split_ws_go r true lim))
+      else if is_ws c then split_ws_go r false lim
+      else match lim with
+           | Some O => [c :: r]
+           | _ => cons_head c (split_ws_go r true (option_map pred lim))
+           end
+  end.
+(* split(sep, maxsplit), sep non-empty: leftmost non-overlapping occurrences, at most maxsplit of them *)
+Fixpoint split_sep_go (sep w : str) (skip : nat) (lim : option nat) : list str :=
+  match w with
+  | [] => [[]]
+  | c :: r =>
+      match skip with
+      | S k => split_sep_go sep r k lim
+      | O => match lim with
+             | Some O => [c :: r]
+             | _ => if prefixb sep w then [] :: split_sep_go sep r (length sep - 1) (option_map pred lim)
+                    else cons_head c (split_sep_go sep r O lim)
+             end
+      end
+  end.
+Definition py_split (s : str) (sep : option str) (ms : option Z) : res (list str) :=
+  match sep with
+  | None => Ok (split_ws_go s false (lim_of ms))
+  | Some [] => Err ValueError                                  (* empty separator *)
+  | Some sp => Ok (split_sep_go sp s O (lim_of ms))
+  end.
+(* rsplit: the same scan from the right end *)
+Definition py_rsplit (s : str) (sep : option str) (ms : option Z) : res (list str) :=
+  match py_split (rev s) (option_map (@rev byte) sep) ms with
+  | Ok l => Ok (rev (map (@rev byte) l))
+  | Err e => Err e
+  end.
+(* splitlines(keepends): \n \r \r\n \v \f \x1c \x1d \x1e end a line (ASCII part of Py_UNICODE_ISLINEBREAK);
+   no empty last line *)
+Definition is_linebreak (c : byte) : bool := existsb (byte_eqb c) [x0a; x0b; x0c; x0d; x1c; x1d; x1e].
+Fixpoint splitlines_go (w : str) (keep started : bool) : list str :=
+  match w with
+  | [] => if started then [[]] else []
+  | c :: r =>
+      if is_linebreak c then
+        match r with
+        | d :: r' => if byte_eqb c x0d && byte_eqb d x0a
+                     then (if keep then [c; d] else []) :: splitlines_go r' keep false
+                     else (if keep then [c] else []) :: splitlines_go r keep false
+        | [] => (if keep then [c] else []) :: splitlines_go r keep false
+        end
+      else cons_head c (splitlines_go r keep true)
+  end.
+Definition py_splitlines (s : str) (keep : bool) : list str := splitlines_go s keep false.
+(* the inverse direction: str.join *)
+Fixpoint join (sep : str) (l : list str) : str :=
+  match l with [] => [] | [x] => x | x :: r => x ++ sep ++ join sep r end.
+
+(* str.maketrans(x, y[, z]) (unicode_maketrans): {ord(x[i]): ord(y[i])} filled left to right (a later duplicate key
+   overwrites), then {ord(c): None for c in z} (overwrites again); ValueError when len(x) != len(y).
+   As an association list read first-match: the z entries, then the (x, y) pairs from the right. *)
+Definition py_maketrans (x y z : str) : res (list (byte * option byte)) :=
+  if Nat.eqb (length x) (length y)
+  then Ok (map (fun c => (c, None)) z ++ rev (combine x (map (@Some byte) y)))
+  else Err ValueError.
+Fixpoint lookup_tbl (c : byte) (m : list (byte * option byte)) : option (option byte) :=
+  match m with
+  | [] => None
+  | (a, b) :: r => if byte_eqb a c then Some b else lookup_tbl c r
+  end.
+(* str.translate with such a table: None deletes, unmapped characters are kept *)
+Definition translate_tbl (d : str) (m : list (byte * option byte)) : str :=
+  flat_map (fun c => match lookup_tbl c m with Some (Some b) => [b] | Some None => [] | None => [c] end) d.
+(* startswith / endswith with a tuple of candidates *)
+Definition py_startswith_any (s : str) (ps : list str) (a b : option Z) : bool := existsb (fun p => py_startswith s p a b) ps.
+Definition py_endswith_any (s : str) (ps : list str) (a b : option Z) : bool := existsb (fun p => py_endswith s p a b) ps.
+
 (* ---- edits and queries of ONE sequence: the code path (seq_edit / seq_query) and the plain-str reading ---- *)
 Inductive edit :=
 | ESet (ix : index) (v : str)                 (* seq[ix] = v *)
@@ -505,7 +608,9 @@ Inductive edit :=
 | ELower | EUpper | ESwapcase                 (* seq.str.lower() ... *)
 | EReplace (old new : str) (cnt : option Z)
 | ECenter (w : Z) (f : option byte) | ELjust (w : Z) (f : option byte) | ERjust (w : Z) (f : option byte)
-| EStrip (chars : option str) | ELstrip (chars : option str) | ERstrip (chars : option str).
+| EStrip (chars : option str) | ELstrip (chars : option str) | ERstrip (chars : option str)
+| ERemoveprefix (p : str) | ERemovesuffix (p : str)
+| ETransMk (x y z : str).                     (* seq.str.translate(seq.str.maketrans(x, y, z)) *)
 
 (* the str method behind a transforming .str wrapper *)
 Definition edit_method (e : edit) (d : str) : str :=
@@ -515,6 +620,7 @@ Definition edit_method (e : edit) (d : str) : str :=
   | EReplace old new cnt => py_replace d old new cnt
   | ECenter w f => py_center d w f | ELjust w f => py_ljust d w f | ERjust w f => py_rjust d w f
   | EStrip cs => py_strip d cs | ELstrip cs => py_lstrip d cs | ERstrip cs => py_rstrip d cs
+  | ERemoveprefix p => py_removeprefix d p | ERemovesuffix p => py_removesuffix d p
   | _ => d
   end.
 (* what the code does (seq.py:264-278, 36-175, 591-596) *)
@@ -524,6 +630,11 @@ Definition seq_edit (e : edit) (s : bioseq) : res bioseq :=
   | EIadd t => Ok (seq_iadd s t)
   | EData d => Ok (set_data s d)
   | EReverse => Ok (seq_reverse s)
+  | ETransMk x y z =>                             (* the table is built first: ValueError leaves the sequence alone *)
+      match py_maketrans x y z with
+      | Err x => Err x
+      | Ok t => Ok (str_transform _ translate_tbl s t)
+      end
   | _ => Ok (str_transform unit (fun d _ => edit_method e d) s tt)
   end.
 (* the same edit on a plain Python str / list *)
@@ -539,6 +650,7 @@ Definition str_edit (e : edit) (d : str) : res str :=
   | EIadd t => Ok (d ++ t)
   | EData d' => Ok d'
   | EReverse => Ok (rev d)
+  | ETransMk x y z => match py_maketrans x y z with Err x => Err x | Ok t => Ok (translate_tbl d t) end
   | _ => Ok (edit_method e d)
   end.
 
@@ -547,8 +659,12 @@ Inductive query :=
 | QCount (sub : str) (a b : option Z) | QFind (sub : str) (a b : option Z) | QRfind (sub : str) (a b : option Z)
 | QIndex (sub : str) (a b : option Z) | QRindex (sub : str) (a b : option Z)
 | QStartswith (p : str) (a b : option Z) | QEndswith (p : str) (a b : option Z)
-| QIsupper | QIslower | QGc | QCountall.
+| QIsupper | QIslower | QGc | QCountall
+| QIsalpha | QIsascii | QEncode
+| QSplit (sep : option str) (ms : option Z) | QRsplit (sep : option str) (ms : option Z) | QSplitlines (keep : bool)
+| QStartswithAny (ps : list str) (a b : option Z) | QEndswithAny (ps : list str) (a b : option Z).
 
+Definition show_strs (l : list str) : val := VL (map VS l).
 Definition show_zres (r : res Z) : val := match r with Ok z => VI z | Err e => show_exc e end.
 (* the str method behind a query .str wrapper *)
 Definition query_method (q : query) (d : str) : val :=
@@ -562,6 +678,12 @@ Definition query_method (q : query) (d : str) : val :=
   | QEndswith p a b => VB (py_endswith d p a b)
   | QIsupper => VB (py_isupper d)
   | QIslower => VB (py_islower d)
+  | QIsalpha => VB (py_isalpha d) | QIsascii => VB (py_isascii d) | QEncode => VS (py_encode d)
+  | QSplit sep ms => show_res show_strs (py_split d sep ms)
+  | QRsplit sep ms => show_res show_strs (py_rsplit d sep ms)
+  | QSplitlines keep => show_strs (py_splitlines d keep)
+  | QStartswithAny ps a b => VB (py_startswith_any d ps a b)
+  | QEndswithAny ps a b => VB (py_endswith_any d ps a b)
   | _ => VNone
   end.
 (* BioSeq.gc, seq.py:336-345: the five letter counts go through self.str.count *)
@@ -595,7 +717,11 @@ Inductive dstep :=
 | DQuery (k : nat) (q : query)
 | DEqObj (k j : nat)               (* obj_k == obj_j *)
 | DAllEdit (e : edit)              (* through BioBasket(all objects): seqs[:, ix] = v, seqs.str.m(...), seqs.reverse() *)
-| DCountall.                       (* BioBasket(all objects).countall() *)
+| DCountall                        (* BioBasket(all objects).countall() *)
+| DSlice (k : nat) (gap : option str) (ix : index)   (* obj_k[ix] / obj_k.sl(gap=gap)[ix]: the NEW object (made by the
+                                      constructor, so upper-cased) is appended to the store *)
+| DSliceIn (k : nat) (gap : option str) (ix : index).   (* obj_k.sl(inplace=True, gap=gap)[ix]: new object appended AND
+                                      obj_k.data = subseq.data *)
 
 (* for seq in basket: edit(seq) -- earlier sequences stay edited when a later one raises *)
 Fixpoint edit_all (e : edit) (b : store) : store * option exc :=
@@ -629,6 +755,20 @@ Definition dstep_run (st : store) (h : dstep) : store * val :=
                   end
   | DAllEdit e => let p := edit_all e st in (fst p, match snd p with None => VNone | Some x => show_exc x end)
   | DCountall => (st, show_res show_counter (countall st))
+  | DSlice k gap ix => match nth_error st k with
+                       | None => (st, show_exc IndexError)
+                       | Some s => match seq_getitem gap s ix with
+                                   | Ok r => (st ++ [r], show_seq r)
+                                   | Err x => (st, show_exc x)
+                                   end
+                       end
+  | DSliceIn k gap ix => match nth_error st k with
+                         | None => (st, show_exc IndexError)
+                         | Some s => match seq_getitem gap s ix with
+                                     | Ok r => (set_nth st k (set_data s (data r)) ++ [r], show_seq r)
+                                     | Err x => (st, show_exc x)
+                                     end
+                         end
   end.
 Fixpoint store_run (st : store) (hs : list dstep) : list val :=
   match hs with
@@ -654,6 +794,17 @@ Definition strs_step (ds : list str) (h : dstep) : list str :=
                  | None => ds
                  end
   | DAllEdit e => fst (str_edit_all e ds)
+  | DSlice k gap ix => match nth_error ds k with
+                       | Some d => match str_getitem gap d ix with Ok r => ds ++ [py_upper r] | Err _ => ds end
+                       | None => ds
+                       end
+  | DSliceIn k gap ix => match nth_error ds k with
+                         | Some d => match str_getitem gap d ix with
+                                     | Ok r => set_nth ds k (py_upper r) ++ [py_upper r]
+                                     | Err _ => ds
+                                     end
+                         | None => ds
+                         end
   | _ => ds
   end.
 Definition ids_step (ids : list str) (h : dstep) : list str :=
@@ -661,9 +812,21 @@ Definition ids_step (ids : list str) (h : dstep) : list str :=
   | DDup k => match nth_error ids k with Some i => ids ++ [i] | None => ids end
   | _ => ids
   end.
+(* slices carry the id of their source (the meta object is shared); whether a slice step succeeds depends on the residues *)
+Definition ids_step_d (ds ids : list str) (h : dstep) : list str :=
+  match h with
+  | DSlice k gap ix | DSliceIn k gap ix =>
+      match nth_error ds k, nth_error ids k with
+      | Some d, Some i => match str_getitem gap d ix with Ok _ => ids ++ [i] | Err _ => ids end
+      | _, _ => ids
+      end
+  | _ => ids_step ids h
+  end.
+Definition pair_step (p : list str * list str) (h : dstep) : list str * list str :=
+  (strs_step (fst p) h, ids_step_d (fst p) (snd p) h).
 (* does step h (possibly) change the object with handle j? *)
 Definition edits (h : dstep) (j : nat) : bool :=
-  match h with DEdit k _ => Nat.eqb k j | DAllEdit _ => true | _ => false end.
+  match h with DEdit k _ | DSliceIn k _ _ => Nat.eqb k j | DAllEdit _ => true | _ => false end.
 
 Definition edit_wf (e : edit) : bool :=
   match e with
@@ -672,6 +835,8 @@ Definition edit_wf (e : edit) : bool :=
   | EReplace a b _ => all_ascii a && all_ascii b
   | ECenter _ f | ELjust _ f | ERjust _ f => is_ascii (fill_of f)
   | EStrip cs | ELstrip cs | ERstrip cs => opt_okstr cs
+  | ERemoveprefix p | ERemovesuffix p => all_ascii p
+  | ETransMk x y z => all_ascii x && all_ascii y && all_ascii z
   | _ => true
   end.
 (* edits that exist at basket level: seqs[:, ix] = v, seqs.str.<transforming method>, seqs.reverse() *)
@@ -680,6 +845,8 @@ Definition query_wf (q : query) : bool :=
   match q with
   | QEq t | QCount t _ _ | QFind t _ _ | QRfind t _ _ | QIndex t _ _ | QRindex t _ _
   | QStartswith t _ _ | QEndswith t _ _ => all_ascii t
+  | QSplit sep _ | QRsplit sep _ => opt_okstr sep
+  | QStartswithAny ps _ _ | QEndswithAny ps _ _ => forallb all_ascii ps
   | _ => true
   end.
 Definition dstep_wf (h : dstep) : bool :=
@@ -687,6 +854,7 @@ Definition dstep_wf (h : dstep) : bool :=
   | DEdit _ e => edit_wf e
   | DAllEdit e => edit_wf e && edit_basket_ok e
   | DQuery _ q => query_wf q
+  | DSlice _ gap _ | DSliceIn _ gap _ => opt_okstr gap
   | _ => true
   end.
 
@@ -736,16 +904,17 @@ Inductive op :=
 | OStore (ss : list str) (hs : list dstep)
 | OFt (s : str) (gap : option str) (fts : list (option str * (Z * Z))) (name : str)
 | BFt (b : list str) (gap : option str) (fts : list (option str * (Z * Z))) (name : str)
-| OStrBox (d t : str) (bounds : list (option Z)).
+| OStrBox (d t : str) (bounds : list (option Z))
+| OStrQ (d : str) (qs : list query) (es : list edit).
 
 Definition ix_contig (ix : index) : bool := match ix with IInt _ => true | ISlice s => contiguous s end.
 Definition step_contig (o : option Z) : bool := match o with None => true | Some k => k =? 1 end.
 Definition opt_ascii (g : option str) : bool := match g with None => true | Some g => all_ascii g end.
 
-(* Domain of the property.  ASCII only (str.upper is modelled on ASCII); gap-aware slicing only for contiguous
-   slices (DESIGN 7 C04: "step <> 1 with gap=" is not claimed); data set behind the constructor's back must be
-   upper case (the constructor normalises; slicing re-normalises); + and right-+ only with an operand without
-   lower-case letters; letter counts only for a non-empty basket. *)
+(* Domain of the correspondence.  ASCII only (str.upper is modelled on ASCII).  Round 7: gap-aware subscripts with
+   any step and slices of sequences that hold lower case are inside (modelled as the code is: columns between the
+   adjusted bounds, result upper-cased by the constructor); + and right-+ only with an operand without lower-case
+   letters; letter counts only for a non-empty basket. *)
 Definition val_ascii (o : val) : bool := match o with VS t => all_ascii t | _ => true end.
 Definition wf_C04 (o : op) : bool :=
   match o with
@@ -753,17 +922,16 @@ Definition wf_C04 (o : op) : bool :=
   | OEq s t => all_ascii s && all_ascii t
   | OEqSeq s a t b => all_ascii s && all_ascii t
   | OGet raw s gap ixs =>
-      all_ascii s && opt_ascii gap && (if raw then no_lower s else true)
-      && (match gap with None => true | Some _ => forallb ix_contig ixs end)
+      all_ascii s && opt_ascii gap
   | OBox s gap _ _ steps =>
-      all_ascii s && opt_ascii gap && (match gap with None => true | Some _ => forallb step_contig steps end)
+      all_ascii s && opt_ascii gap
   | OAdd s t | ORadd s t => all_ascii s && all_ascii t && no_lower t
   | OIadd s t => all_ascii s && all_ascii t
   | OSet s _ v => all_ascii s && all_ascii v
   | OCount b => forallb all_ascii b && negb (Nat.eqb (length b) 0)
   | BGetI b _ | BGetSl b _ => forallb all_ascii b
   | BGetIJ b gap _ j | BGetSlJ b gap _ j =>
-      forallb all_ascii b && opt_ascii gap && (match gap with None => true | Some _ => ix_contig j end)
+      forallb all_ascii b && opt_ascii gap
   | BSetI b _ v => forallb all_ascii b && all_ascii v
   | BSetSl b _ vs => forallb all_ascii b && forallb all_ascii vs
   | BSetSlJ b _ _ v | BSetIJ b _ _ v => forallb all_ascii b && all_ascii v
@@ -775,6 +943,7 @@ Definition wf_C04 (o : op) : bool :=
   | OFt s gap fts name => all_ascii s && opt_ascii gap && forallb ft_wf fts && all_ascii name
   | BFt b gap fts name => forallb all_ascii b && opt_ascii gap && forallb ft_wf fts && all_ascii name
   | OStrBox d t _ => all_ascii d && all_ascii t
+  | OStrQ d qs es => all_ascii d && forallb query_wf qs && forallb edit_wf es
   end.
 
 Definition idx_id (k : nat) : str := "s"%byte :: dec_of_nat k.
@@ -829,6 +998,10 @@ Definition run_op (o : op) : val :=
       VL (map (fun mk : str -> option Z -> option Z -> query =>
                  VL (map (fun a => VL (map (fun b => seq_query (mk t a b) s) bounds)) bounds))
               [QCount; QEndswith; QFind; QIndex; QRfind; QRindex; QStartswith])
+  | OStrQ d qs es =>
+      (* seq.data = d; every query, then every edit on a fresh such sequence *)
+      let s := mkseq d (bs "x"%bs) in
+      VL [VL (map (fun q => seq_query q s) qs); VL (map (fun e => show_res show_seq (seq_edit e s)) es)]
   end.
 
 Definition run_C04 (o : op) : val := VL [VB (wf_C04 o); run_op o].
